@@ -699,6 +699,8 @@ def replay(ctx):
             if rep.get("content_hex") is not None:
                 s["content"] = bytes.fromhex(rep["content_hex"])
         cc.run_decoder_lockstep(ctx, tie, [case])
+    elif kind == "reuse-history" and rep.get("family") == "dict-id":
+        r3.replay_id_history(ctx, rep, tie)
     elif kind == "reuse-history":
         ch.replay_history(ctx, rep)
     elif kind == "compress-history":
